@@ -61,6 +61,11 @@ for _name in sorted(STAT) + ["quantile"]:
         s, c, p = _agg(_name, _axes, _axis, q=0.3 if _name == "quantile" else None)
         register(Obligation("verif.aggregator.%s.__call__#POST:%s" % (_name.capitalize(), _tag), ("C15", "C05"), s, c, p, modules=MOD,
                             functions=["verif.aggregator.%s.__call__" % _name.capitalize()]))
+# quantile levels that are not a whole number of percent, and the two ends
+for _q in (0.025, 0.125, 0.975, 0.0, 1.0):
+    s, c, p = _agg("quantile", ("n",), None, q=_q)
+    register(Obligation("verif.aggregator.Quantile.__call__#POST:1d,level=%g" % _q, ("C15", "C05"), s, c, p, modules=MOD,
+                        functions=["verif.aggregator.Quantile.__call__"]))
 
 
 def _change(name, axes, axis):
